@@ -309,10 +309,11 @@ fn parse_directive_definition(
     .unwrap_or_default();
     let is_repeatable = parse_if_rule(&mut pairs, Rule::repeatable, |pair| {
         debug_assert_eq!(pair.as_rule(), Rule::repeatable);
-        Ok(())
+        // the rule matches the empty string as well, so the pair is always there
+        Ok(!pair.as_str().is_empty())
     })
     .unwrap_or_default()
-    .is_some();
+    .unwrap_or_default();
     let locations = {
         let pair = pairs.next().unwrap();
         debug_assert_eq!(pair.as_rule(), Rule::directive_locations);
